@@ -151,7 +151,7 @@ def _charset(run, P):
     for n in ast.walk(f.node):
         if isinstance(n, ast.If) and isinstance(n.test, ast.UnaryOp) \
                 and isinstance(n.test.op, ast.Not) and isinstance(n.test.operand, ast.Name) \
-                and has(f"{n.test.operand.id} = default_identifier", n.body[0]) \
+                and any(has(f"{n.test.operand.id} = default_identifier", s_) for s_ in n.body) \
                 and any(isinstance(r_, ast.Return) and dotted(r_.value) == n.test.operand.id
                         for r_ in ast.walk(f.node)):
             ok = True
@@ -210,7 +210,7 @@ def _prefix(run, P):
         if isinstance(n, ast.If) and "startswith('dagrt_')" in ast.unparse(n.test) \
                 and "not" in ast.unparse(n.test):
             asg = [s for s in n.body if isinstance(s, ast.Assign)]
-            if asg and string_value(asg[0].value) == "lploc_":
+            if any(string_value(a_.value) == "lploc_" for a_ in asg):
                 ok = True
     run.ob("C13.prefix", nl, nl.node, ok,
            construct="name_local: prefix 'lploc_' unless the name starts with 'dagrt_'",
@@ -334,8 +334,8 @@ def _memo(run, P):
     ok_hit = ok_store = False
     if tries:
         t = tries[0]
-        ok_hit = len(t.body) == 1 and isinstance(t.body[0], ast.Return) \
-            and norm(t.body[0].value) == "self._dict[key]"
+        from ..engine.match import leaves_with
+        ok_hit = leaves_with(t.body, ast.Return, "self._dict[key]")
         for h in t.handlers:
             if h.type is not None and "KeyError" in ast.unparse(h.type):
                 src = [ast.unparse(s) for s in h.body]
